@@ -98,3 +98,23 @@ pub open spec fn slow_ok(a: AV, s0: SV, s1: SV, size: u32, k: int, mo: int, ms: 
   &&& s1.discarded == s0.discarded + (if split { 8int } else { 0int })
   &&& s1.allocated == s0.allocated && s1.min_seg == s0.min_seg && s1.writable == s0.writable && s1.lo == s0.lo
 }
+
+pub open spec fn sum_sizes(l: Seq<Node>) -> int
+  decreases l.len()
+{
+  if l.len() == 0 { 0 } else { l[0].1 as int + sum_sizes(l.remove(0)) }
+}
+
+/// free(post) is contained in free(pre): the cursor did not move down and every list byte was a list byte
+pub open spec fn free_shrinks(s0: SV, s1: SV) -> bool {
+  s1.allocated >= s0.allocated && forall|b: int| #[trigger] in_list(s1.list, b) ==> in_list(s0.list, b) || b >= s0.allocated
+}
+
+/// C01/C03 geometry of a returned region: release extent [mo, mo+ms), accessible range [po, po+ps)
+pub open spec fn meta_ok(a: AV, s1: SV, mo: int, ms: int, po: int, ps: int) -> bool {
+  &&& a.data_offset <= mo <= po
+  &&& po + ps <= s1.allocated <= a.cap
+  &&& mo + ms <= s1.allocated
+  &&& clear_of_list(s1.list, mo, po + ps)
+  &&& clear_of_list(s1.list, mo, mo + ms)
+}
